@@ -1,6 +1,6 @@
-SPECIFICATION SpecRun
+SPECIFICATION Spec
 CONSTANTS
-  Alphabet <- WrapAlphabetT
+  Alphabet <- DevAlphabet
   MaxSteps = 4
   AutoStart = FALSE
   Deviation = "none"
